@@ -402,6 +402,13 @@ func chainBlock(n int, dense bool) *wire.MsgBlock {
 	return blk
 }
 
+func firstTxs(t []*bchutil.Tx, n int) []*bchutil.Tx {
+	if len(t) < n {
+		return t
+	}
+	return t[:n]
+}
+
 func fullFilter(nbytes int) *wire.MsgFilterLoad {
 	return wire.NewMsgFilterLoad(bytesOf(0xff, nbytes), 1, 0, wire.BloomUpdateAll)
 }
@@ -525,9 +532,9 @@ func runWire(rng *vh.RNG) {
 		txs := sampleTxs
 		if !cfg.Thorough() && fl != nil && len(fl.Filter) > 8 {
 			ds = [][]byte{datas[0], datas[3], datas[7]}
-			txs = sampleTxs[:8]
+			txs = firstTxs(sampleTxs, 8)
 		} else if !cfg.Thorough() {
-			txs = sampleTxs[:20]
+			txs = firstTxs(sampleTxs, 20)
 		}
 		var blk *bchutil.Block
 		var raw []byte
@@ -580,7 +587,7 @@ func runWire(rng *vh.RNG) {
 		if i%3 == 0 {
 			st = "random"
 		}
-		callBloom(st, &back, [][]byte{r.Bytes(r.Intn(40))}, sampleTxs[:3], nil, nil)
+		callBloom(st, &back, [][]byte{r.Bytes(r.Intn(40))}, firstTxs(sampleTxs, 3), nil, nil)
 	}
 
 	// ===== merkle blocks: arbitrary messages =====
